@@ -17,6 +17,20 @@ import (
 var t *lib.Trace
 var r *rand.Rand
 
+// fail records a direct-oracle failure, at most maxPerSig lines per signature (lib.Trace keeps
+// only the first 200 F lines of a run; one noisy signature must not hide another)
+const maxPerSig = 8
+
+var sigCount = map[string]int{}
+
+func fail(sig, desc string) {
+	sigCount[sig]++
+	t.Count("F:" + sig)
+	if sigCount[sig] <= maxPerSig {
+		t.Fail(sig, desc)
+	}
+}
+
 type fields [7]int // yr mon day hr min sec ms
 
 func (f fields) String() string {
@@ -231,10 +245,36 @@ func checkCase() {
 	d := mk(f)
 	t.Q("new "+f.String(), fmt.Sprintf("%d %d", f[0]<<9|f[1]<<5|f[2], f[3]<<22|f[4]<<16|f[5]<<10|f[6]))
 	if g := fieldsOf(d); g != f {
-		t.Fail("getters", fmt.Sprintf("NewDate(%v) has fields %v", f, g))
+		fail("getters", fmt.Sprintf("NewDate(%v) has fields %v", f, g))
 	}
 	t.Q(fmt.Sprintf("fields %d %d", f[0]<<9|f[1]<<5|f[2], f[3]<<22|f[4]<<16|f[5]<<10|f[6]), fieldsOf(d).String())
 
+	// --- sibling operations of the anchored code
+	wd := d.WeekDay()
+	t.Q("wday "+f.String(), fmt.Sprint(wd))
+	if want := ((dayNo(f[0], f[1], f[2])+1)%7 + 7) % 7; wd != want { // 0001-01-01 was a Monday
+		fail("weekday-vs-reference", fmt.Sprintf("%v.WeekDay() = %d, calendar reference %d", f, wd, want))
+	}
+	if back := SuDateFromUnixMilli(d.UnixMilli()); back != d {
+		fail("unixmilli-roundtrip", fmt.Sprintf("SuDateFromUnixMilli(%v.UnixMilli()) = %v", f, fieldsOf(back)))
+	}
+	if w := d.WithoutMs(); fieldsOf(w) != (fields{f[0], f[1], f[2], f[3], f[4], f[5], 0}) {
+		fail("withoutms", fmt.Sprintf("%v.WithoutMs() = %v", f, fieldsOf(w)))
+	}
+	if f[0] < 3000 {
+		k := 1 + r.Intn(99)
+		if f[6]+k >= 1000 {
+			t.Count("addms:carry")
+		}
+		var a SuDate
+		if e := lib.Catch(func() { a = d.AddMs(k) }); e == "" {
+			// AddMs is only required to move forward by at least 1 ms and at most k ms
+			// (its slow path adds a single millisecond)
+			if diff := a.MinusMs(d); diff < 1 || diff > int64(k) {
+				fail("addms", fmt.Sprintf("%v.AddMs(%d) = %v (difference %d ms)", f, k, fieldsOf(a), diff))
+			}
+		}
+	}
 	// --- addition
 	off, kind := genOffset()
 	t.Count("offset:" + kind)
@@ -249,7 +289,7 @@ func checkCase() {
 	if overflow {
 		t.Count("plus:ms-beyond-int64-ns")
 		if !ok && refok || ok && (!refok || fieldsOf(e) != ref) {
-			t.Fail("plus-ms-overflow", fmt.Sprintf("%v.Plus(%v): implementation %v (ok=%v), calendar reference %v (valid %v)",
+			fail("plus-ms-overflow", fmt.Sprintf("%v.Plus(%v): implementation %v (ok=%v), calendar reference %v (valid %v)",
 				f, off, fieldsOf(e), ok, ref, refok))
 			if ok {
 				t.Q(fmt.Sprintf("plus %v %v", f, off), fieldsOf(e).String())
@@ -263,25 +303,25 @@ func checkCase() {
 		t.Count("plus:out-of-range")
 		t.Q(fmt.Sprintf("plus %v %v", f, off), "!bad")
 		if refok {
-			t.Fail("plus-vs-reference", fmt.Sprintf("%v.Plus(%v) panics but the calendar result %v is a valid date", f, off, ref))
+			fail("plus-vs-reference", fmt.Sprintf("%v.Plus(%v) panics but the calendar result %v is a valid date", f, off, ref))
 		}
 	} else {
 		t.Count("plus:ok")
 		ef := fieldsOf(e)
 		t.Q(fmt.Sprintf("plus %v %v", f, off), ef.String())
 		if !refok || ref != ef {
-			t.Fail("plus-vs-reference", fmt.Sprintf("%v.Plus(%v) = %v, calendar reference %v (valid %v)", f, off, ef, ref, refok))
+			fail("plus-vs-reference", fmt.Sprintf("%v.Plus(%v) = %v, calendar reference %v (valid %v)", f, off, ef, ref, refok))
 		}
 		// differences consistent with additions
 		if kind == "days" {
 			if got := e.MinusDays(d); got != off[2] {
-				t.Fail("plus-days-minusdays", fmt.Sprintf("%v.Plus(days %d) = %v but MinusDays = %d", f, off[2], ef, got))
+				fail("plus-days-minusdays", fmt.Sprintf("%v.Plus(days %d) = %v but MinusDays = %d", f, off[2], ef, got))
 			}
 		}
 		if kind == "ms" || kind == "seconds" || kind == "minutes" || kind == "hours" {
 			want := int64(off[6]) + 1000*(int64(off[5])+60*(int64(off[4])+60*int64(off[3])))
 			if got := e.MinusMs(d); got != want {
-				t.Fail("plus-ms-minusms", fmt.Sprintf("%v.Plus(%v) = %v but MinusMs = %d want %d", f, off, ef, got, want))
+				fail("plus-ms-minusms", fmt.Sprintf("%v.Plus(%v) = %v but MinusMs = %d want %d", f, off, ef, got, want))
 			}
 		}
 		t.Q(fmt.Sprintf("mdays %v %v", ef, f), fmt.Sprint(e.MinusDays(d)))
@@ -293,7 +333,7 @@ func checkCase() {
 				s += sgn(x)
 			}
 			if sgn(e.Compare(d)) != sgn(s) {
-				t.Fail("plus-order", fmt.Sprintf("%v.Plus(%v) = %v compares %d", f, off, ef, e.Compare(d)))
+				fail("plus-order", fmt.Sprintf("%v.Plus(%v) = %v compares %d", f, off, ef, e.Compare(d)))
 			}
 		}
 		// day additions compose
@@ -301,24 +341,24 @@ func checkCase() {
 			k := r.Intn(2001) - 1000
 			if e2, ok2 := plusImpl(e, fields{0, 0, k, 0, 0, 0, 0}); ok2 {
 				if e3, ok3 := plusImpl(d, fields{0, 0, off[2] + k, 0, 0, 0, 0}); !ok3 || e3 != e2 {
-					t.Fail("plus-compose", fmt.Sprintf("%v + %d days + %d days = %v but + %d days = %v", f, off[2], k, fieldsOf(e2), off[2]+k, fieldsOf(e3)))
+					fail("plus-compose", fmt.Sprintf("%v + %d days + %d days = %v but + %d days = %v", f, off[2], k, fieldsOf(e2), off[2]+k, fieldsOf(e3)))
 				}
 			}
 		}
 		// month addition and subtraction from a day that exists in every month
 		if kind == "months" && f[2] <= 28 {
 			if back, ok2 := plusImpl(e, fields{0, -off[1], 0, 0, 0, 0, 0}); !ok2 || back != d {
-				t.Fail("plus-months-inverse", fmt.Sprintf("%v + %d months - %d months = %v", f, off[1], off[1], fieldsOf(back)))
+				fail("plus-months-inverse", fmt.Sprintf("%v + %d months - %d months = %v", f, off[1], off[1], fieldsOf(back)))
 			}
 		}
 		// order: Compare = chronological = packed bytes
 		c := sgn(d.Compare(e))
 		t.Q(fmt.Sprintf("cmp %v %v", f, ef), fmt.Sprint(c))
 		if c != cmpFields(f, ef) {
-			t.Fail("order-chronological", fmt.Sprintf("Compare(%v, %v) = %d, fields compare %d", f, ef, c, cmpFields(f, ef)))
+			fail("order-chronological", fmt.Sprintf("Compare(%v, %v) = %d, fields compare %d", f, ef, c, cmpFields(f, ef)))
 		}
 		if cb := strings.Compare(PackValue(d), PackValue(e)); cb != c {
-			t.Fail("order-packed", fmt.Sprintf("Compare(%v, %v) = %d, packed bytes compare %d", f, ef, c, cb))
+			fail("order-packed", fmt.Sprintf("Compare(%v, %v) = %d, packed bytes compare %d", f, ef, c, cb))
 		}
 	}
 	// NormalizeDate directly on overflowed fields
@@ -337,23 +377,23 @@ func checkCase() {
 	t.Q(fmt.Sprintf("mdays %v %v", f, g), fmt.Sprint(d.MinusDays(d2)))
 	t.Q(fmt.Sprintf("mms %v %v", f, g), fmt.Sprint(d.MinusMs(d2)))
 	if want := dayNo(f[0], f[1], f[2]) - dayNo(g[0], g[1], g[2]); d.MinusDays(d2) != want {
-		t.Fail("minusdays-vs-reference", fmt.Sprintf("%v.MinusDays(%v) = %d, calendar reference %d", f, g, d.MinusDays(d2), want))
+		fail("minusdays-vs-reference", fmt.Sprintf("%v.MinusDays(%v) = %d, calendar reference %d", f, g, d.MinusDays(d2), want))
 	}
 	wantMs := int64(dayNo(f[0], f[1], f[2])-dayNo(g[0], g[1], g[2]))*86400000 +
 		int64(f[6]-g[6]) + 1000*(int64(f[5]-g[5])+60*(int64(f[4]-g[4])+60*int64(f[3]-g[3])))
 	if d.MinusMs(d2) != wantMs {
-		t.Fail("minusms-vs-reference", fmt.Sprintf("%v.MinusMs(%v) = %d, calendar reference %d", f, g, d.MinusMs(d2), wantMs))
+		fail("minusms-vs-reference", fmt.Sprintf("%v.MinusMs(%v) = %d, calendar reference %d", f, g, d.MinusMs(d2), wantMs))
 	}
 	if back, ok := plusImpl(d2, fields{0, 0, d.MinusDays(d2), 0, 0, 0, 0}); ok {
 		bf := fieldsOf(back)
 		if bf[0] != f[0] || bf[1] != f[1] || bf[2] != f[2] {
-			t.Fail("minusdays-plus", fmt.Sprintf("%v + (%v - %v in days) = %v", g, f, g, bf))
+			fail("minusdays-plus", fmt.Sprintf("%v + (%v - %v in days) = %v", g, f, g, bf))
 		}
 	}
 	c := sgn(d.Compare(d2))
 	t.Q(fmt.Sprintf("cmp %v %v", f, g), fmt.Sprint(c))
 	if c != cmpFields(f, g) {
-		t.Fail("order-chronological", fmt.Sprintf("Compare(%v, %v) = %d, fields compare %d", f, g, c, cmpFields(f, g)))
+		fail("order-chronological", fmt.Sprintf("Compare(%v, %v) = %d, fields compare %d", f, g, c, cmpFields(f, g)))
 	}
 	// --- literal round trip
 	s := d.String()
@@ -379,19 +419,19 @@ func checkCase() {
 	ts := DateFromLiteral(lit)
 	t.Q("lit "+lib.X(lit), litOut(ts))
 	if st, ok := ts.(SuTimestamp); !ok || st.SuDate != d || st.String() != lit {
-		t.Fail("ts-literal-roundtrip", fmt.Sprintf("DateFromLiteral(%s) = %v", lit, ts))
+		fail("ts-literal-roundtrip", fmt.Sprintf("DateFromLiteral(%s) = %v", lit, ts))
 	} else {
 		t.Q(fmt.Sprintf("tsstr %v %d", f, extra), lib.X(st.String()))
 		// a timestamp sorts just after its date and before the next millisecond
 		if sgn(d.Compare(st)) != -1 || sgn(st.Compare(d)) != 1 {
-			t.Fail("ts-order", fmt.Sprintf("Compare(%v, %v) = %d", d, st, d.Compare(st)))
+			fail("ts-order", fmt.Sprintf("Compare(%v, %v) = %d", d, st, d.Compare(st)))
 		}
 		x2 := 1 + r.Intn(255)
 		lit2 := fmt.Sprintf("%s%03d", lit[:19], x2)
 		if st2, ok := DateFromLiteral(lit2).(SuTimestamp); ok {
 			t.Q(fmt.Sprintf("cmpts %v %d %v %d", f, extra, f, x2), fmt.Sprint(sgn(st.Compare(st2))))
 			if sgn(st.Compare(st2)) != sgn(extra-x2) {
-				t.Fail("ts-order", fmt.Sprintf("Compare(%v, %v) = %d", st, st2, st.Compare(st2)))
+				fail("ts-order", fmt.Sprintf("Compare(%v, %v) = %d", st, st2, st.Compare(st2)))
 			}
 		}
 	}
@@ -416,12 +456,12 @@ func litOut(v Value) string {
 func checkLiteral(s string, d SuDate, sig string) {
 	var v Value
 	if e := lib.Catch(func() { v = DateFromLiteral(s) }); e != "" {
-		t.Fail(sig, fmt.Sprintf("DateFromLiteral(%q) panics: %s", s, e))
+		fail(sig, fmt.Sprintf("DateFromLiteral(%q) panics: %s", s, e))
 		return
 	}
 	t.Q("lit "+lib.X(s), litOut(v))
 	if v != Value(d) {
-		t.Fail(sig, fmt.Sprintf("DateFromLiteral(%q) = %v, want %v", s, v, d))
+		fail(sig, fmt.Sprintf("DateFromLiteral(%q) = %v, want %v", s, v, d))
 	}
 }
 
@@ -464,7 +504,7 @@ func malformed() {
 		t.Q("new "+f.String(), "!nil")
 	}
 	if valid != refValid(f) {
-		t.Fail("valid-vs-calendar", fmt.Sprintf("NewDate(%v) valid=%v, calendar says %v", f, valid, refValid(f)))
+		fail("valid-vs-calendar", fmt.Sprintf("NewDate(%v) valid=%v, calendar says %v", f, valid, refValid(f)))
 	}
 	// literal text
 	g := genDate()
@@ -525,7 +565,7 @@ func main() {
 				ref, refok := refNormalize(sum)
 				e, ok := plusImpl(d, off)
 				if ok != refok || (ok && fieldsOf(e) != ref) {
-					t.Fail("plus-vs-reference", fmt.Sprintf("%v.Plus(%v) = %v ok=%v, reference %v ok=%v", f, off, fieldsOf(e), ok, ref, refok))
+					fail("plus-vs-reference", fmt.Sprintf("%v.Plus(%v) = %v ok=%v, reference %v ok=%v", f, off, fieldsOf(e), ok, ref, refok))
 				}
 				if ok {
 					t.Q(fmt.Sprintf("plus %v %v", f, off), fieldsOf(e).String())
